@@ -119,6 +119,12 @@ def job_random(job):
     return drivers.make_trace(directed, removal, calls, labeling=lab, forks=forks, rng=rng)
 
 
+def job_history(job):
+    """one given call sequence on one graph, observed after every call"""
+    seed, directed, removal, calls, lab = job
+    return drivers.make_trace(directed, removal, calls, labeling=lab, rng=random.Random(seed))
+
+
 def apalache_merge_lemma(chk):
     """extra (never the basis of the claimed level): Apalache proves the per-pair Merge lemma for unbounded
     integers and timelines of up to 5 intervals (spec/apalache/ApaMerge.tla)"""
@@ -262,6 +268,16 @@ def run(prop, tier, seed):
         jobs.append((rng.randrange(1 << 30), rng.random() < 0.5, rng.choice(modes_wanted), rng.choice([15, 25]),
                      rng.choice([120, 250]), rng.choice([120, 180]), rng.choice(["int", "zero", "neg", "big", "str"])))
     chk.run_jobs(job_random, jobs, "rand", chunk=1500)
+    if prop in ("C08", "C01", "C04", "C05"):
+        # an object that is emptied and used again at earlier instants: nothing may survive clear() / clear_edges()
+        cjobs = []
+        for _ in range(16 if tier == "quick" else 300):
+            nn, tmax = rng.choice([2, 3, 4]), rng.choice([6, 10])
+            first = [c for c in drivers.rand_history(rng, nn, tmax, rng.randint(3, 8)) if c["op"] != "touch"]
+            again = [c for c in drivers.rand_history(rng, nn, max(2, tmax // 3), rng.randint(2, 6), monotone=1.0) if c["op"] != "touch"]
+            calls = first + [{"op": rng.choice(["clear", "clear_edges"])}] + again
+            cjobs.append((rng.randrange(1 << 30), rng.random() < 0.5, rng.choice(modes_wanted), calls, rng.choice(LABS)))
+        chk.run_jobs(job_history, cjobs, "reuse", chunk=1500)
     repo_test_traces(chk)
     if prop == "C08":
         # "all snapshot queries of C02 follow that presence": the C02 query battery on accumulative states (clauses C02_*
